@@ -14,40 +14,63 @@ def _is_expr(x):
     return isinstance(x, MathExpression)
 
 
+def _purity_culprit(s, cname):
+    """name the node whose can_apply_to call modifies the tree (slow path, only after a sweep differed)"""
+    tree = SG.build(s)
+    rule = RW.config(cname)
+    everything = audit.all_nodes(tree)
+    for index, node in enumerate(RW.inorder(tree)):
+        before = audit.snapshot(everything)
+        try:
+            rule.can_apply_to(node)
+        except Exception:  # noqa
+            continue
+        d = audit.snapshot_diff(before, audit.snapshot(everything))
+        if d:
+            return index, node, d
+    return None
+
+
 def check_state(root, s):
-    """All C06 obligations of one state; returns ([(core, detail, cfg, index)], stats)."""
+    """All C06 obligations of one state; returns ([(core, detail, cfg, index)], number of calls checked).
+
+    Purity: the whole tree is snapshotted around the sweep of can_apply_to over all nodes of one
+    configuration (a sweep that changes anything is then bisected per call on a rebuilt tree)."""
     out = []
     nodes = RW.inorder(root)
     everything = audit.all_nodes(root)
     twin = RW.inorder(SG.build(s))  # an independent tree with the same structure
     ncalls = 0
     for cname, rule in RW.configs():
-        answers = []
+        before = audit.snapshot(everything)
+        a1 = []
         for index, node in enumerate(nodes):
-            before = audit.snapshot(everything)
             try:
-                a1 = rule.can_apply_to(node)
+                a1.append(bool(rule.can_apply_to(node)))
+                ncalls += 1
             except Exception as e:  # noqa
                 out.append((f"{cname}|can_apply-raises:{type(e).__name__}|{RW.neighbourhood(node)}", repr(e), cname, index))
-                answers.append(False)
-                continue
-            ncalls += 1
-            after = audit.snapshot(everything)
-            d = audit.snapshot_diff(before, after)
-            if d:
-                out.append((f"{cname}|can_apply-modifies-tree|{RW.neighbourhood(node)}", d, cname, index))
+                a1.append(False)
+        d = audit.snapshot_diff(before, audit.snapshot(everything))
+        if d:
+            hit = _purity_culprit(s, cname)
+            if hit is not None:
+                index, node, d2 = hit
+                out.append((f"{cname}|can_apply-modifies-tree|{RW.neighbourhood(node)}", d2, cname, index))
+            else:
+                out.append((f"{cname}|can_apply-modifies-tree|sweep", d, cname, 0))
+        for index, node in enumerate(nodes):
             try:
-                a2 = rule.can_apply_to(node)
-                a3 = rule.can_apply_to(twin[index])
+                a2 = bool(rule.can_apply_to(node))
+                a3 = bool(rule.can_apply_to(twin[index]))
             except Exception as e:  # noqa
                 out.append((f"{cname}|can_apply-raises-on-repeat:{type(e).__name__}|{RW.neighbourhood(node)}", repr(e), cname, index))
-                answers.append(bool(a1))
                 continue
-            if bool(a1) != bool(a2):
-                out.append((f"{cname}|can_apply-answer-changes-on-repeat|{RW.neighbourhood(node)}", f"{a1} then {a2}", cname, index))
-            if bool(a1) != bool(a3):
-                out.append((f"{cname}|can_apply-differs-on-identical-tree|{RW.neighbourhood(node)}", f"{a1} vs {a3}", cname, index))
-            answers.append(bool(a1))
+            if a1[index] != a2:
+                out.append((f"{cname}|can_apply-answer-changes-on-repeat|{RW.neighbourhood(node)}", f"{a1[index]} then {a2}", cname, index))
+            if a1[index] != a3:
+                out.append((f"{cname}|can_apply-differs-on-identical-tree|{RW.neighbourhood(node)}", f"{a1[index]} vs {a3}", cname, index))
+        answers = a1
         # node search
         want = [n for n, a in zip(nodes, answers) if a]
         try:
